@@ -130,6 +130,11 @@ def run_accept(job, res):
                 parts = data.split(";", 5)
                 if len(parts) != 6 or parts[:3] != lv[:3] or parts[4] != lv[4] or parts[5] != "1":
                     res.violation("acceptance:wrong-line", f"in_prefix {prefix!r}: topic {topic!r} reached logic as {data!r}", case)
+                elif parts[3] != ("1" if qos > 0 else "0"):
+                    # the ack flag of a received command is 1 exactly when it was delivered with QoS > 0 (the fourth
+                    # topic level is the sender's business)
+                    res.violation(f"acceptance:ack-not-from-qos:qos={min(qos, 1)}:level={lv[3] if lv[3] in ('0', '1') else 'other'}",
+                                  f"in_prefix {prefix!r}: topic {topic!r} delivered with qos {qos} reached logic as {data!r}", case)
         if pi == 0 and job["i"] == 0:
             res.sample({"kind": "accept", "in_prefix": prefix, "topics": candidate_topics(rng, prefix, 3)[:8]})
 
